@@ -383,6 +383,29 @@ def legs(ctx):
                    exhaustive=True,
                    bound='%d expressions: every function/operator template x %s of argument values; PRINT and '
                          'Session.evaluate; 2 configurations' % (len(exprs), 'pairs' if q else 'the full product (arity <= 3)')))
+    # graphics context: SCREEN x VIEW/WINDOW prefix, then every graphics statement / function
+    gkw = ['PSET', 'PRESET', 'LINE', 'CIRCLE', 'PAINT', 'DRAW', 'GET', 'PUT', 'VIEW', 'WINDOW', 'PCOPY', 'PALETTE',
+           'LOCATE', 'CLS', 'COLOR', 'WIDTH', 'SCREEN', 'PRINT', 'KEY']
+    gfn = ['POINT', 'PMAP', 'SCREEN', 'POS', 'CSRLIN', 'PEN', 'STICK', 'STRIG']
+    gnums = ['-32768', '-1', '0', '1', '150', '300', '319', '320', '1000', '32767', '1E38']
+    gstrs = ['""', '"A"', 'CHR$(0)', 'STRING$(255,"x")', '"U1000"', '"M+1,+1"']
+    gstm = []
+    for kw in gkw:
+        for t in A.STATEMENTS[kw]:
+            for txt in A.deviations(t, gnums, gstrs, 1 if q else 2):
+                gstm.append((kw, txt))
+    for kw in gfn:
+        for t in A.FUNCTIONS[kw]:
+            for txt in A.deviations(t, gnums, gstrs, 2):
+                gstm.append((kw, 'X=' + txt))
+    screens = ['SCREEN 1'] if q else ['SCREEN 1', 'SCREEN 2', 'SCREEN 7', 'SCREEN 9', 'SCREEN 0:WIDTH 40']
+    views = ['X=0', 'VIEW (100,100)-(200,150)', 'VIEW SCREEN (10,10)-(20,20),1,2', 'WINDOW (0,0)-(1,1)',
+             'WINDOW SCREEN (-1,-1)-(1,1)', 'VIEW (100,100)-(200,150):WINDOW (0,0)-(1,1)', 'VIEW PRINT 2 TO 3']
+    gpairs = [(sc + ':' + vw, st) for sc in screens for vw in views for st in gstm]
+    out.append(Leg('graphics', [(config, c) for config in CONFIGS for c in chunked(gpairs, 100)], work_history,
+                   exhaustive=True,
+                   bound='%d screens x %d VIEW/WINDOW contexts x %d graphics statement/function instantiations, '
+                         '2 configurations' % (len(screens), len(views), len(gstm))))
     # depth-2 histories
     firsts = STATE_CHANGERS_QUICK if q else STATE_CHANGERS
     pairs = [(f, b) for f in firsts for b in benign]
